@@ -66,6 +66,10 @@ def step (w : W) (toks : List String) : W × String :=
     match parseCoins coins with
     | some c => ({ track w addr with world := { w.world with bank := { w.world.bank with bal := w.world.bank.bal.set addr c } } }, ".")
     | none => (w, "bad-op")
+  | ["d.lockacct", addr, coins] =>
+    match parseCoins coins with
+    | some c => ({ w with world := { w.world with bank := { w.world.bank with locked := w.world.bank.locked.set addr c } } }, ".")
+    | none => (w, "bad-op")
   | ["d.new"] => ({ w with pending := [] }, ".")
   | ["d.sub", name, burn, prim] =>
     match optInt? burn, parseAccount prim with
